@@ -92,9 +92,9 @@ func (t *Tree[E]) replayGames(pos int) {
 	// At the start, pos is a leaf node, and is the winner at that level.
 	n := parent(pos)
 	for n != 0 {
-		// If n.value < pos.value then pos loses.
-		// If they are equal, pos wins because n could be a sequence that ended, with value maxval.
-		if t.nodes[n].value < t.nodes[pos].value {
+		// If the loser recorded at n beats pos then pos loses.
+		// If they are equal, pos wins.
+		if t.less(t.nodes[n].index, pos) {
 			loser := pos
 			// Record pos as the loser here, and the old loser is the new winner.
 			pos = t.nodes[n].index
@@ -130,10 +130,22 @@ func (t *Tree[E]) sequenceEnded(pos int) {
 }
 
 func (t *Tree[E]) playGame(a, b int) (loser, winner int) {
-	if t.nodes[a].value < t.nodes[b].value {
+	if t.less(a, b) {
 		return b, a
 	}
 	return a, b
+}
+
+// less reports whether leaf a beats leaf b. A sequence that ended loses to any active one,
+// whatever its value: maxVal is also a legitimate item, so values alone cannot tell them apart.
+func (t *Tree[E]) less(a, b int) bool {
+	if t.nodes[a].index == -1 {
+		return false
+	}
+	if t.nodes[b].index == -1 {
+		return true
+	}
+	return t.nodes[a].value < t.nodes[b].value
 }
 
 func parent(i int) int { return i / 2 }
